@@ -372,6 +372,12 @@ class Interp:
             return Sym(f"(- (+ {x.s} {m}) (* 2 {cs}))", "Int", 0, None)
         if isinstance(op, ast.Pow):
             raise Unsupported("symbolic exponentiation")
+        if isinstance(op, (ast.LShift, ast.RShift)):
+            if is_sym(b) or b < 0:
+                raise Unsupported("shift by symbolic / negative amount")
+            if isinstance(op, ast.LShift):
+                return self._bin(ast.Mult(), a, 2 ** b)
+            return self._bin(ast.FloorDiv(), a, 2 ** b)
         sa, sb = smt(a), smt(b)
         if isinstance(op, ast.Add):
             lo = a.lo + b.lo if is_sym(a) and is_sym(b) and a.lo is not None and b.lo is not None else None
